@@ -1002,6 +1002,18 @@ class PathEnv(Terms):
                 tn = [n.id for n in ast.walk(e.node.target) if isinstance(n, ast.Name)] if hasattr(e.node, "target") else []
                 self._kill(env, dirty, (), tn)
                 if isinstance(e.node, (ast.For, ast.AsyncFor)):
+                    it_ = e.node.iter
+                    k_ = getattr(e, "val", None)
+                    if isinstance(it_, (ast.Tuple, ast.List)) and isinstance(k_, int) and not isinstance(k_, bool) and 0 <= k_ < len(it_.elts):
+                        # a loop over a literal: in its k-th round the variable IS the k-th element
+                        el_, tg_ = it_.elts[k_], e.node.target
+                        if isinstance(tg_, ast.Name) and not any(isinstance(c_, ast.Call) for c_ in ast.walk(el_)):
+                            env[tg_.id] = self.expand(el_, env=env, dirty=dirty)
+                        elif isinstance(tg_, ast.Tuple) and isinstance(el_, (ast.Tuple, ast.List)) and len(tg_.elts) == len(el_.elts) \
+                                and all(isinstance(t_, ast.Name) for t_ in tg_.elts) and not any(isinstance(c_, ast.Call) for c_ in ast.walk(el_)):
+                            for t_, x_ in zip(tg_.elts, el_.elts):
+                                env[t_.id] = self.expand(x_, env=env, dirty=dirty)
+                        continue
                     info = self._loop_info(e.node, env, dirty)
                     if not info.synthetic:
                         for v, el in info.elems.items():
@@ -1013,7 +1025,22 @@ class PathEnv(Terms):
             snap = (dict(env), set(dirty))
             self.before.setdefault(id(st), snap)
             self.occ.append((st, snap[0], snap[1]))
-            if isinstance(st, (ast.Assign, ast.AugAssign, ast.AnnAssign, ast.Expr, ast.Delete)):
+            if isinstance(st, ast.Expr) and isinstance(st.value, ast.Call) and isinstance(st.value.func, ast.Attribute) and st.value.func.attr == "append" \
+                    and isinstance(st.value.func.value, ast.Name) and len(st.value.args) == 1 and not st.value.keywords \
+                    and isinstance(env.get(st.value.func.value.id), ast.List) and st.value.func.value.id not in dirty \
+                    and not any(isinstance(c_, ast.Call) for c_ in ast.walk(st.value.args[0])):
+                # a list display built up element by element along the path: x = []; x.append(a); x.append(b)  is  [a, b]
+                x = st.value.func.value.id
+                new_l = ast.List(elts=list(env[x].elts) + [self.expand(st.value.args[0], env=env, dirty=dirty)], ctx=ast.Load())
+                ast.copy_location(new_l, st)
+                ast.fix_missing_locations(new_l)
+                # readers of x's earlier contents are out of date
+                for n_ in list(env):
+                    if n_ != x and any(paths_overlap(x, r_) for r_ in access_paths_in(env[n_])):
+                        del env[n_]
+                        dirty.discard(n_)
+                env[x] = new_l
+            elif isinstance(st, (ast.Assign, ast.AugAssign, ast.AnnAssign, ast.Expr, ast.Delete)):
                 r = self._stmt(st, env, dirty)
                 env, dirty = r
             elif isinstance(st, ast.Return):
